@@ -117,8 +117,8 @@ impl Property for C16 {
             knobs: Knobs { max_nodes: 30, ..Default::default() },
         };
         match tier {
-            Tier::Quick => vec![mk("streams", 30_000)],
-            Tier::Thorough => vec![mk("streams", 800_000)],
+            Tier::Quick => vec![mk("streams", 250_000)],
+            Tier::Thorough => vec![mk("streams", 2_500_000)],
         }
     }
 
